@@ -15,10 +15,14 @@ CONFIG = {
                "documented-but-doubtful construct (`sem-*` / `valid-*`: unknown type / package / import / attribute / block, duplicate "
                "field / type / option / method / event / summary, required+optional, enum vs message mix-ups, bad literals, path parameter "
                "without field, method without request / verb, topic shapes, entity shapes, wrong package, empty file, inline-name capture, "
-               "self reference, README array form, ext.singleForm, file-level import cycle, imports of every shape: version element first / only / in the middle / missing, one element, sub-package, own package, with alias), then random inputs: 20 % random bytes / ASCII "
-               "soup / token soup, 40 % token-level mutations (delete / duplicate / swap / replace / insert / truncate / reorder the elements of a dotted name) of valid generated "
-               "files, 20 % mutated semantic cases (a quarter of them random import statements of 1-4 elements out of v1 v2 v10 foo bar thing service …, plain / aliased / file path, used or not), 20 % valid generated packages with rules (half of them bundles of up to 3 packages with imports "
-               "and same-named types in two packages), ~9 % abstract bundles that must be REJECTED (op `total.neg`: wrong package declaration, enum "
+               "self reference, README array form, ext.singleForm, file-level import cycle, imports of every shape: version element first / only / in the middle / missing, one element, sub-package, own package, with alias), then random inputs: 15 % random bytes / ASCII "
+               "soup / token soup, 31 % token-level mutations (delete / duplicate / swap / replace / insert / truncate / reorder the elements of a dotted name) of valid generated "
+               "files, 15 % mutated semantic cases (a quarter of them random import statements of 1-4 elements out of v1 v2 v10 foo bar thing service …, plain / aliased / file path, used or not), 15 % valid generated packages with rules (half of them bundles of up to 3 packages with imports "
+               "and same-named types in two packages), ~15 % byte-level `cut` inputs (templates with string literals / a regex / descriptions / comments, hand-written semantic cases "
+               "and generated files: backslash material - \\n \\\\ \\\" \\t \\uXXXX \\U… \\xNN octal, lone backslash, complete and cut short - dropped into string literals, and / or END OF INPUT "
+               "inside or up to 4 bytes after the escape, inside a string, inside / after a comment, description or regex opener, at any offset), preceded by ~270 deterministic `cut-det-*` "
+               "cases (every non-empty prefix of each of 29 escape sequences at the very end of the file inside an open string; the complete sequence in a closed string, before EOL, before a quote; "
+               "every third prefix of a file with comments, descriptions and a regex), ~8 % abstract bundles that must be REJECTED (op `total.neg`: wrong package declaration, enum "
                "default filter naming no option, non-list-shaped list method; the model answers from the abstract bundle). Each input goes through CompilePackage, "
                "LintFile and LintAll under recover + 30 s timeout (fatal errors are attributed by the engine through per-op flushing). "
                "Result = outcome class (ok | err | err:nopos | err:virtual | err:outside | panic); every positioned error is checked "
@@ -36,8 +40,10 @@ CONFIG = {
         "unpositioned errors are identified by call site: if the load half of CompilePackage (PackageSet.LoadLocalPackage on a fresh set) succeeds, the error "
         "came from the link half and carries the single signature c07-nopos:link-stage (one recorded finding, members listed there); load-half errors keep a "
         "narrow signature each",
-        "theorem level: C07_accepts_partial proves acceptance by the converter for a decidable source-level ValidBundle; that the result also LINKS is not "
-        "proved (the full statement AcceptsAndLinks is refuted on the model by the recorded capture witness, C07_accepts_counterexample)",
+        "theorem level: C07_accepts_partial proves acceptance by the converter for a decidable source-level ValidBundle; of the five failure arms of the spec-level "
+        "linker three are proved not taken from the sources (C07_link_acyclic under a decidable file rank, C07_link_imports_found, C07_link_uses; assembled in "
+        "C07_accepts_links_partial), the other two (duplicate symbol, scoped type-name resolution) remain explicit conditions on the generated files (the full statement "
+        "AcceptsAndLinks is refuted on the model by the recorded capture witness, C07_accepts_counterexample, which fails exactly the resolution arm)",
     ],
 }
 
